@@ -99,6 +99,30 @@ func viewPart(name string, quick, thorough int, o kvOpts) sup.Part {
 				}
 			}
 			sim.Do(op)
+			if o.Profile[kv.KSetMeta] > 0 && r.Chance(1, 10) {
+				// high-water-mark probe: another collection is written, this collection's index is brought up to date, then
+				// a replicated version of this collection's newest document arrives with a CAS just above its own
+				ci := r.Intn(cfg.Colls)
+				oc := (ci + 1) % cfg.Colls
+				w := g.Make(kv.KSet)
+				w.Key, w.Coll = o.Keys[r.Intn(len(o.Keys))], oc
+				sim.Do(w)
+				sim.JudgeViews(0, ci, age[ci])
+				age[ci] = "incremental"
+				newest, ncas := "", uint64(0)
+				for k, d := range sim.Model {
+					if k.B == 0 && k.C == ci && k.K != kv.MarkerKey && d.Present && d.Cas > ncas {
+						newest, ncas = k.K, d.Cas
+					}
+				}
+				if newest != "" {
+					m := g.Make(kv.KSetMeta)
+					m.Key, m.Coll, m.CasClass, m.NewCasClass = newest, ci, kv.CasCurrent, "between"
+					sim.Do(m)
+					sim.JudgeViews(0, ci, "after-replicated-write")
+					c.Count("high_water_mark_probes", 1)
+				}
+			}
 			switch r.Intn(12) {
 			case 0, 1, 2:
 				ci := r.Intn(cfg.Colls)
